@@ -62,8 +62,14 @@ def main():
         report['demo_clean_exit'] = rc0
         rc, out = sh(f'git -C {scratch} apply {patch}')
         if rc:
-            print('patch does not apply:', out)
-            return 2
+            # the tree has moved on (fix: commits); retry leniently
+            rc, out2 = sh(f'git -C {scratch} apply -3 {patch}')
+            if rc:
+                rc, out2 = sh(f'patch -p1 --fuzz=3 -i {patch}', cwd=scratch)
+            report['patch_applied_with_fallback'] = True
+            if rc:
+                print('patch does not apply:', out, out2)
+                return 2
         touched = open(patch).read()
         if not a.skip_suite:
             rc, out = sh(f'{PY} -m pytest -q -p no:cacheprovider '
